@@ -828,11 +828,17 @@ class Engine:
                 if isinstance(n, ast.Name) and n.id not in targets:
                     targets.append(n.id)
         hv = spec.get("havoc", {})
+        for nme in hv:
+            if nme not in targets:
+                targets.append(nme)      # mutated in place by the body (e.g. list.append): declared explicitly
         for nme in targets:
             if nme in hv:
                 fr.locals[nme] = self.make_sym(ctx, hv[nme], fresh_name(nme))
             elif nme in fr.locals:
                 fr.locals[nme] = self.fresh_like(ctx, fr.locals[nme], nme)
+        for nme, shape in spec.get("havoc_objects", {}).items():
+            # the object a local name refers to is mutated in place by the body: fresh contents, same identity
+            self.havoc_object(ctx, fr.locals[nme], shape, nme)
         for obj_attr, shape in spec.get("havoc_fields", {}).items():
             parts = obj_attr.split(".")
             ef_ = getattr(self, "entry_frame", None)
@@ -886,8 +892,13 @@ class Engine:
             except _Break:
                 broke = True
             if not broke:
+                injected = [k for k in ctx.ghost if k not in fr.locals]
+                for k in injected:
+                    fr.locals[k] = ctx.ghost[k]
                 for line in spec.get("ghost_stmts", []):
                     it.exec_block(ast.parse(line).body, Frame(self.contract_module(self.current), fr.locals, closure=None))
+                for k in injected:
+                    fr.locals.pop(k, None)
                 if is_for:
                     fr.locals[idx] = mk(iz + 1, "int")
                 check_invs("preserve")
